@@ -431,7 +431,7 @@ func (x *Run) doSelect(fr *Frame, st *State, ins *ssa.Select, outs *[]Outcome) [
 		if idx >= 0 {
 			sst := ins.States[idx]
 			ch := x.val(fr, s, sst.Chan)
-			closed := sel(x.arr(s, x.chClosedArr()), ch.T)
+			closed := sel(x.arr(s, x.chClosedArr(sst.Chan.Type())), ch.T)
 			if sst.Dir == types.SendOnly {
 				x.mayPanic(fr, s, not(closed), "send-on-closed", ins, outs)
 				s.events = append(s.events, Event{Name: "send", Args: []Val{ch, x.val(fr, s, sst.Send)}})
